@@ -109,6 +109,36 @@ def run(ctx):
                 ctx.violation({'kind': 'unnormalised-exceeds-1', 'n': n}, {'j': j, 'max': float(np.abs(z).max())}, case=None)
     if not (np.array_equal(rho, rho0) and np.array_equal(theta, theta0)):
         ctx.violation({'kind': 'caller-coordinates-modified'}, {}, case=None)
+    # coordinates are array_like: nested lists, single precision, integer grids (rho in {0, 1}) are the same coordinates;
+    # one coordinate alone is refused, not silently replaced; the piston mode is a fresh array, not the caller's mask
+    lr, lt = [[0.0, 1.0, 1.0, 0.0]], [[0.0, np.pi / 4, np.pi / 2, np.pi]]          # one row: a python list times an int would tile it
+    for j in (2, 3, 4, 5, 6, 11):
+        ref = np.asarray(lentil.zernike(np.ones((1, 4)), j, normalize=False, rho=np.array(lr), theta=np.array(lt)), dtype=float)
+        for form, rr_, tt_ in (('list-theta', np.array(lr), lt), ('list-both', lr, lt), ('float32', np.array(lr, dtype=np.float32), np.array(lt, dtype=np.float32)),
+                               ('uint8-rho', np.array(lr, dtype=np.uint8), np.array(lt)), ('int-rho', np.array(lr, dtype=int), np.array(lt))):
+            ctx.case(('coordinate-form', j, form))
+            try:
+                z_ = np.asarray(lentil.zernike(np.ones((1, 4)), j, normalize=False, rho=rr_, theta=tt_), dtype=float)
+                ok = z_.shape == ref.shape and np.allclose(z_, ref, rtol=0, atol=1e-6)
+            except Exception:
+                ok = True             # (an explicit refusal of a container type is not a wrong value)
+            if not ok:
+                ctx.violation({'kind': 'coordinate-form', 'form': form}, {'j': j, 'expected': ref, 'observed': z_}, case=None)
+                break
+    mk_ = np.zeros((5, 5), dtype=bool)
+    mk_[1:4, 1:5] = True
+    try:
+        only_theta = lentil.zernike(mk_, 2, theta=lentil.zernike_coordinates(mk_, rotate=40.0)[1])
+        if np.allclose(only_theta, lentil.zernike(mk_, 2), rtol=0, atol=1e-12):
+            ctx.violation({'kind': 'theta-without-rho-ignored'}, {'note': 'the supplied theta is silently replaced by the default one (rho alone is refused)'}, case=None)
+    except ValueError:
+        pass
+    keep_ = mk_.copy()
+    z1_ = lentil.zernike(mk_, 1)
+    if z1_ is mk_ or np.shares_memory(z1_, mk_):
+        ctx.violation({'kind': 'piston-aliases-the-mask'}, {'dtype': str(np.asarray(z1_).dtype)}, case=None)
+    if not np.array_equal(mk_, keep_) or not np.allclose(np.asarray(z1_, dtype=float), keep_.astype(float)):
+        ctx.violation({'kind': 'mode-value', 'j': 1, 'n': 0, 'normalize': True}, {'note': 'piston is not the indicator of the mask'}, case=None)
     # ---- 2b. high orders (numeric leaf: the exact value comes from Python rationals, TLC's 32-bit integers stop near n = 12) ------------
     # the radial polynomial is 1 at rho = 1 and bounded by 1 for EVERY order; an alternating power series loses this near n = 40
     from fractions import Fraction as Fr
